@@ -131,10 +131,12 @@ class ConcatenatedObject(Concatenated, ObjectBase):
 
     @parent.setter
     def parent(self, parent: Concatenator):
-        if not hasattr(parent, "add_children"):
+        if not hasattr(parent, "add_children") or not hasattr(
+            parent, "add_save_concatenated"
+        ):
             raise ValueError(
-                "The 'parent' of a concatenated Object must have an "
-                "'add_children' method."
+                "The 'parent' of a concatenated Object must be a Concatenator "
+                "with an 'add_children' method."
             )
         parent.add_children([self])
         self._parent = parent
